@@ -145,6 +145,22 @@ def pack_instance(rng, cls, nmax=12):
         return C, [a] * rng.randint(1, nmax)
     if cls == "planted":
         return planted_packing(rng, m=rng.randint(1, 4), C=rng.choice([10, 30, 100]), nmax=nmax)[:2]
+    if cls == "widerange":
+        # huge bin size with items spanning many orders of magnitude: nearly-full items, tiny items, exact fills (relative tolerances / float shortcuts show here only)
+        C = rng.choice([10 ** 9, 10 ** 9 + 7, 2 ** 31, 2 ** 40, 2 ** 50, 10 ** 12])
+        n = rng.randint(2, nmax)
+        v = []
+        for _ in range(n):
+            x = rng.random()
+            if x < 0.35:
+                v.append(C - rng.randint(0, 1000))
+            elif x < 0.7:
+                v.append(rng.randint(0, 1000))
+            elif x < 0.85:
+                v.append(rng.randint(1, C))
+            else:
+                v.append(C // 2 + rng.randint(-500, 500))
+        return C, [min(max(0, x), C) for x in v]
     raise KeyError(cls)
 
 
